@@ -6,8 +6,6 @@ import "io"
 
 // Exports for the verification drivers (injected by `go build -overlay`; not part of the repo).
 
-func VerifMaxRetryCount() float64 { return maxRetryCount }
-
 type VerifSeeker interface {
 	io.ReadSeeker
 }
